@@ -506,12 +506,26 @@ func (e *Exec) mapVal(s *State, mt *types.Map, ref, key string) Val {
 func (e *Exec) read(s *State, fam string, args []string, so string, at ...string) string {
 	sym := e.cur(s, fam, args, so)
 	term := app(sym, at...)
+	if so == "Int" && strings.HasSuffix(fam, ".len") && e.specHook != nil {
+		e.specHook(term, "len", "")
+	}
 	if so == "Ref" {
+		// heap invariant, relative to the state in which this version of the family was created ("birth"): a location
+		// whose CONTAINER object existed then holds null or an object that existed then. (Locations of objects allocated
+		// later — e.g. the fresh result array of a callee — are only described by what the callee's contract says.)
+		container := ""
+		if len(args) > 0 && args[0] == "Ref" {
+			container = at[0]
+		}
 		if e.specHook != nil {
-			e.specHook(term, sym)
+			e.specHook(term, sym, container)
 		} else if e.quietLoads == 0 {
 			if birth, ok := e.famBirth[sym]; ok {
-				s.assume("(or (= %s null) (%s %s))", term, birth, term)
+				if container != "" {
+					s.assume("(=> (%s %s) (or (= %s null) (%s %s)))", birth, container, term, birth, term)
+				} else {
+					s.assume("(or (= %s null) (%s %s))", term, birth, term)
+				}
 			}
 		}
 	}
